@@ -227,8 +227,18 @@ def statements(draw, depth, scope, counter, in_loop=False):
             out.append(["block", inner, draw(st.sampled_from([None, None, "comment"]))])
         elif r < 18 and depth > 0:  # branch
             cond = draw(expr("bool", draw(st.integers(0, 2)), scope))
-            a = draw(statements(depth - 1, dict(scope), counter, in_loop))
-            b = draw(statements(depth - 1, dict(scope), counter, in_loop)) if draw(st.booleans()) else []
+            shape = draw(st.integers(0, 9))
+            if shape < 2:
+                # an arm that is empty, or becomes empty only after optimisation, next to a non-empty one
+                k = 4 + draw(st.integers(0, N_OUT - 1))
+                hollow = draw(st.sampled_from([[], [["assign", ["aidx", "vals", ["int", k]], ["aidx", "vals", ["int", k]]]],
+                                               [["block", [], "comment"]], [["loop", ["bool", False], []]]]))
+                k2 = 4 + draw(st.integers(0, N_OUT - 1))
+                solid = [["assign", ["aidx", "vals", ["int", k2]], draw(expr("float", 1, scope))]]
+                a, b = (hollow, solid) if shape == 0 else (solid, hollow)
+            else:
+                a = draw(statements(depth - 1, dict(scope), counter, in_loop))
+                b = draw(statements(depth - 1, dict(scope), counter, in_loop)) if draw(st.booleans()) else []
             out.append(["branch", cond, a, b])
         elif r < 19 and depth > 0:  # bounded loop
             name = f"c{counter[0]}"
@@ -524,7 +534,7 @@ def replay(payload):
 def run(chk):
     quick = chk.tier == "quick"
     chk.absorb(run_stream(__name__, "kernels", chk.tier, chk.seed, 240 if quick else 8000), kind="case", shrink=shrink_kernel)
-    chk.absorb(run_stream(__name__, "programs", chk.tier, chk.seed, 3200 if quick else 200000), kind="program",
+    chk.absorb(run_stream(__name__, "programs", chk.tier, chk.seed, 6400 if quick else 200000), kind="program",
                shrink=shrink_program)
 
 
